@@ -61,7 +61,7 @@ func genHostile(rng *rand.Rand, thorough bool) hostile {
 	}
 	pk := pb.String("pk")
 	names := []string{"commit-offset", "term", "term-options", "last-version-id", "session", "session-shadow", "idx", "notifications"}
-	switch c := rng.IntN(30); c {
+	switch c := rng.IntN(31); c {
 	case 0:
 		return hostile{"seq:no-partition-key", put(seq("sq", nil, 1))}
 	case 1:
@@ -78,6 +78,10 @@ func genHostile(rng *rand.Rand, thorough bool) hostile {
 		// junk that reads as additional (empty) levels
 		return hostile{"seq:extra-levels-junk", &proto.WriteRequest{Puts: []*proto.PutRequest{
 			{Key: []string{"sq6--", "sq6-00000000000000000001-"}[rng.IntN(2)], Value: []byte("j")}, seq("sq6", pk, 1)}}}
+	case 30:
+		// a numeric suffix that does not fit 64 bits, written by a client under the prefix
+		return hostile{"seq:suffix-out-of-range", &proto.WriteRequest{Puts: []*proto.PutRequest{
+			{Key: []string{"sq7-100000000000000000000", "sq7-0000000000000000000000018446744073709551616", "sq7-18446744073709551614999"}[rng.IntN(3)], Value: []byte("j")}, seq("sq7", pk, 1)}}}
 	case 4:
 		return hostile{"seq:overflow-delta", &proto.WriteRequest{Puts: []*proto.PutRequest{seq("sq4", pk, ^uint64(0)), seq("sq4", pk, 5)}}}
 	case 5:
@@ -283,6 +287,7 @@ func runC13(tier string, seed uint64, idx int) core.Result {
 	}
 	for i := 0; i < n && r.Violations() < 6; i++ {
 		var h hostile
+		afterPlain := false
 		if rng.IntN(3) == 0 {
 			// ordinary traffic in between
 			p := &proto.PutRequest{Key: []string{"a", "a/b", "b", "sq", "a/e"}[rng.IntN(5)], Value: []byte(fmt.Sprint(i))}
@@ -295,10 +300,30 @@ func runC13(tier string, seed uint64, idx int) core.Result {
 			h = hostile{"plain", &proto.WriteRequest{Puts: []*proto.PutRequest{p}}}
 		} else {
 			h = genHostile(rng, thorough)
+			if rng.IntN(3) == 0 && h.tag != "empty-request" {
+				// the hostile operation is not the first of its batch
+				plain := []*proto.PutRequest{{Key: "a/plain", Value: []byte("p")}}
+				if rng.IntN(2) == 0 {
+					plain = append(plain, &proto.PutRequest{Key: "b", Value: []byte("p")})
+				}
+				h.req.Puts = append(plain, h.req.Puts...)
+				if len(h.req.Deletes) > 0 {
+					h.req.Deletes = append([]*proto.DeleteRequest{{Key: "a/plain-absent"}}, h.req.Deletes...)
+				}
+				if len(h.req.DeleteRanges) > 0 {
+					h.req.DeleteRanges = append([]*proto.DeleteRangeRequest{{StartInclusive: "a/x", EndExclusive: "a/y"}}, h.req.DeleteRanges...)
+				}
+				afterPlain = true
+				r.Count("hostile_after_plain", 1)
+			}
 			r.Count("hostile_requests", 1)
 			seen[h.tag] = true
 		}
-		tags = append(tags, h.tag)
+		if afterPlain {
+			tags = append(tags, h.tag+"(after plain ops in the same request)")
+		} else {
+			tags = append(tags, h.tag)
+		}
 		walBefore := l.WalF.Wal(l.Shard).LastOffset()
 		resp, err := l.Write(h.req)
 		if err != nil && status.Code(err) == codes.InvalidArgument {
